@@ -132,7 +132,8 @@ pub fn scenarios(prop: &str, tier: &str) -> Vec<Scenario> {
             let fine: &[f64] = if thorough { &[0.002, 0.0005] } else { &[0.001] };
             for &f in fine {
                 for pk in Pk::ALL {
-                    for w in [b.world_free(), b.world_named("subset0001", vec![b.obstacles[0].clone()])] {
+                    let fine_worlds = if thorough { vec![b.world_free(), b.world_named("subset0001", vec![b.obstacles[0].clone()])] } else { vec![b.world_named("subset0001", vec![b.obstacles[0].clone()])] };
+                    for w in fine_worlds {
                         let mut spec = b.spec.clone();
                         match &mut spec {
                             Spec::Rv { frac, .. } | Spec::So2 { frac, .. } | Spec::So3 { frac, .. } => *frac = Some(f),
@@ -552,7 +553,7 @@ fn run_kit<K: Kit>(prop: &'static str, tier: &'static str, scs: &[(usize, Scenar
     let idx_of: std::collections::HashMap<String, usize> = scs.iter().map(|(i, s)| (s.tag.clone(), *i)).collect();
     let only: Vec<Shard> = shard_list.into_iter().map(|(_, s)| s).collect();
     let logging = prop == "C03";
-    let r = par_explore::<K>(&only, logging, true, tier != "quick", &|sc, seq, r, rep| {
+    let r = par_explore::<K>(&only, logging, true, tier != "quick", prop == "C02" || prop == "C04", &|sc, seq, r, rep| {
         let idx = idx_of[&sc.tag];
         judge::<K>(prop, tier, idx, sc, seq, r, rep)
     });
